@@ -172,9 +172,21 @@ func runLull(c *vlib.Ctx, section string, idx int, r *vlib.Rand) {
 	// all timestamps of the scenario lie within a third of the smallest waiting time: the
 	// timestamp trigger never fires, whatever ends up in one batch
 	t := baseTime + int64(r.Intn(1000))
+	// a quarter of the scenarios hand over records that were never stamped (Time 0), another
+	// eighth records stamped in the first milliseconds of the epoch: the waiting time in force
+	// applies to a pending batch whatever its records say (added after seeded change C16r7-3,
+	// which took "first record's time is 0" for "nothing pending")
+	unstamped := false
+	switch r.Intn(8) {
+	case 0, 1:
+		t, unstamped = 0, true
+		c.Count("lull_scenarios_with_unstamped_records", 1)
+	case 2:
+		t = int64(r.Intn(3))
+	}
 	span, seq := int64(0), 0
 	next := func(contentLen int) *recSpec {
-		if step := int64(r.Intn(2)); span+step < minWait/3 {
+		if step := int64(r.Intn(2)); span+step < minWait/3 && !unstamped {
 			t += step
 			span += step
 		}
